@@ -137,6 +137,7 @@ class Ctx:
     def oblige(self, kind, ok, inst, span, detail=""):
         if not self.record:
             return
+        fn_level = span is not None and span is inst.get("span")      # an obligation about the function as a whole (post-condition, INV at exit)
         sinst, sspan = self.site(inst, span or {})
         tag = ""
         for t in sinst.get("targs", []):
@@ -146,6 +147,8 @@ class Ctx:
         snip = sspan.get("call") or sspan.get("snip") or ""
         if sspan.get("call") and sspan.get("snip") and sspan["snip"] not in sspan["call"]:
             snip = sspan["call"] + " >> " + sspan["snip"]
+        if fn_level:
+            snip = snip.split("{")[0].strip()       # keyed by the signature only: a rewrite of the body does not change the key
         via = "" if sinst is inst else " via " + nz(inst["path"])
         key = "%s%s | %s%s | %s" % (sinst["dpath"], tag, kind, via, snip[:140])
         o = self.obs.get(key)
